@@ -12,23 +12,24 @@ Local Open Scope Z_scope.
 
 Section Generic.
   Context {Cfg St In Out Saved : Type} (M : machine Cfg St In Out Saved).
+  Variable Ok : Cfg -> Prop.                 (* configurations the object accepts (init() succeeds) *)
   Variable Inv : Cfg -> St -> Prop.          (* holds of every state a run reaches *)
   Variable Eqv : Cfg -> St -> St -> Prop.    (* "indistinguishable from now on" *)
   Variable OutEq0 : Out -> Out -> Prop.      (* what must agree at the re-executed step *)
   Variable OutEq : Out -> Out -> Prop.       (* what must agree at every later step *)
 
   Record resumable : Prop := mkResumable {
-    r_inv_init : forall c, Inv c (m_init M c);
-    r_inv_step : forall c s it rel i, Inv c s -> 0 <= rel -> Inv c (fst (m_step M c s it rel i));
-    r_reexec : forall c s it rel i, Inv c s -> 0 <= rel ->
+    r_inv_init : forall c, Ok c -> Inv c (m_init M c);
+    r_inv_step : forall c s it rel i, Ok c -> Inv c s -> 0 <= rel -> Inv c (fst (m_step M c s it rel i));
+    r_reexec : forall c s it rel i, Ok c -> Inv c s -> 0 <= rel ->
       let so := m_step M c s it rel i in
       let so' := m_step M c (m_load M c (m_save M c (fst so))) it 0 i in
       Eqv c (m_after_save M c (fst so)) (fst so') /\ OutEq0 (snd so) (snd so');
-    r_congr : forall c s s' it rel rel' i, Eqv c s s' -> 0 < rel -> 0 < rel' ->
+    r_congr : forall c s s' it rel rel' i, Ok c -> Eqv c s s' -> 0 < rel -> 0 < rel' ->
       Eqv c (fst (m_step M c s it rel i)) (fst (m_step M c s' it rel' i)) /\
       OutEq (snd (m_step M c s it rel i)) (snd (m_step M c s' it rel' i));
-    r_save : forall c s s', Eqv c s s' -> m_save M c s = m_save M c s';
-    r_save_load : forall c s, Inv c s -> m_save M c (m_load M c (m_save M c s)) = m_save M c s
+    r_save : forall c s s', Ok c -> Eqv c s s' -> m_save M c s = m_save M c s';
+    r_save_load : forall c s, Ok c -> Inv c s -> m_save M c (m_load M c (m_save M c s)) = m_save M c s
   }.
 
   Definition step_out_eq (R : Out -> Out -> Prop) (a b : Z * Out) : Prop := fst a = fst b /\ R (snd a) (snd b).
@@ -58,7 +59,7 @@ Section Generic.
   Lemma mod_tick_rel_nonneg m : 0 <= mod_rel m -> 0 <= mod_rel (mod_tick m).
   Proof. unfold mod_tick, mod_rel. destruct (md_started m); cbn [md_it md_itr]; lia. Qed.
 
-  Lemma run_from_inv c h : forall m s, Inv c s -> 0 <= mod_rel m -> resumable ->
+  Lemma run_from_inv c (Hc : Ok c) h : forall m s, Inv c s -> 0 <= mod_rel m -> resumable ->
     Inv c (snd (fst (run_from M c m s h))) /\ 0 <= mod_rel (fst (fst (run_from M c m s h))).
   Proof.
     induction h as [|i r IH]; intros m s Hs Hm HR.
@@ -69,7 +70,7 @@ Section Generic.
   Qed.
 
   (* equivalent states, both past the first step of their run: same outputs from then on *)
-  Lemma bisim_tail (HR : resumable) c h : forall m m' s s',
+  Lemma bisim_tail (HR : resumable) c (Hc : Ok c) h : forall m m' s s',
     Eqv c s s' -> mod_ok m -> mod_ok m' -> md_it m = md_it m' ->
     let rA := run_from M c m s h in
     let rB := run_from M c m' s' h in
@@ -82,7 +83,7 @@ Section Generic.
       destruct (mod_tick_ok _ Hm) as (Hk & Hi & Hr). destruct (mod_tick_ok _ Hm') as (Hk' & Hi' & Hr').
       assert (Heq : md_it (mod_tick m') = md_it (mod_tick m)) by lia.
       rewrite Heq.
-      destruct (r_congr HR c s s' (md_it (mod_tick m)) (mod_rel (mod_tick m)) (mod_rel (mod_tick m')) i He Hr Hr') as [He2 Ho].
+      destruct (r_congr HR c s s' (md_it (mod_tick m)) (mod_rel (mod_tick m)) (mod_rel (mod_tick m')) i Hc He Hr Hr') as [He2 Ho].
       specialize (IH (mod_tick m) (mod_tick m') _ _ He2 Hk Hk' (eq_sym Heq)).
       cbn zeta in IH. destruct IH as (IH1 & IH2 & IH3).
       repeat split; auto.
@@ -91,7 +92,7 @@ Section Generic.
 
   (* The resumed run against the run that went on.
      h1: the steps before the stop step; i: the input of the stop step; h2: the steps after it. *)
-  Theorem resume_vs_go_on (HR : resumable) c it0 h1 i h2 :
+  Theorem resume_vs_go_on (HR : resumable) c (Hc : Ok c) it0 h1 i h2 :
     let P := run M c it0 (h1 ++ [i]) in                        (* the run up to and including the stop step *)
     let A := go_on M c (fst P) h2 in                           (* it writes its state and goes on *)
     let B := resume M c (state_file M c (fst P)) (i :: h2) in  (* fresh instance, load, re-execute, go on *)
@@ -109,7 +110,7 @@ Section Generic.
     cbn [run_from fst snd app].
     set (m0 := fst (fst r0)). set (s0 := snd (fst r0)).
     assert (Hinv0 : Inv c s0 /\ 0 <= mod_rel m0).
-    { subst m0 s0 r0. apply run_from_inv; auto. apply (r_inv_init HR). unfold mod_rel, mod_init; cbn; lia. }
+    { subst m0 s0 r0. apply run_from_inv; auto. apply (r_inv_init HR); auto. unfold mod_rel, mod_init; cbn; lia. }
     destruct Hinv0 as [Hs0 Hm0].
     set (m1 := mod_tick m0).
     assert (Hm1 : mod_ok m1).
@@ -117,24 +118,24 @@ Section Generic.
     unfold mod_save.
     destruct (mod_tick_fresh (md_it m1)) as (Hf1 & Hf2 & Hf3).
     rewrite Hf2, Hf3.
-    destruct (r_reexec HR c s0 (md_it m1) (mod_rel m1) i Hs0 (proj2 Hm1)) as [He Ho]. cbn zeta in He, Ho.
+    destruct (r_reexec HR c s0 (md_it m1) (mod_rel m1) i Hc Hs0 (proj2 Hm1)) as [He Ho]. cbn zeta in He, Ho.
     set (so := m_step M c s0 (md_it m1) (mod_rel m1) i) in *.
     set (so' := m_step M c (m_load M c (m_save M c (fst so))) (md_it m1) 0 i) in *.
-    destruct (bisim_tail HR c h2 m1 (mod_tick (mod_load (md_it m1))) _ _ He Hm1 Hf1 (eq_sym Hf2)) as (H1 & H2 & H3).
+    destruct (bisim_tail HR c Hc h2 m1 (mod_tick (mod_load (md_it m1))) _ _ He Hm1 Hf1 (eq_sym Hf2)) as (H1 & H2 & H3).
     exists (snd r0), (md_it m1, snd so), (snd (run_from M c (mod_tick (mod_load (md_it m1))) (fst so') h2)).
     cbn [fst snd hd]. repeat split; auto.
     apply (r_save HR); auto.
   Qed.
 
   (* saving immediately after loading reproduces the state that was loaded (as data) *)
-  Theorem save_after_load (HR : resumable) c it0 h :
+  Theorem save_after_load (HR : resumable) c (Hc : Ok c) it0 h :
     let P := run M c it0 h in
     let f := state_file M c (fst P) in
     state_file M c (mod_load (fst f), m_load M c (snd f)) = f.
   Proof.
     intros P f. subst f. unfold state_file, mod_save, mod_load. cbn [fst snd md_it].
-    f_equal. apply (r_save_load HR).
-    subst P. unfold run. apply run_from_inv; auto. apply (r_inv_init HR). unfold mod_rel, mod_init; cbn; lia.
+    f_equal. apply (r_save_load HR); [exact Hc|].
+    subst P. unfold run. apply run_from_inv; auto. apply (r_inv_init HR); auto. unfold mod_rel, mod_init; cbn; lia.
   Qed.
 
   (* when writing the state leaves the object unchanged, the run that went on IS the uninterrupted run *)
